@@ -98,22 +98,30 @@ def lake_build(targets):
         rc, out = sh(["lake", "build"] + targets, cwd=LEAN, env=dict(os.environ))
         return rc == 0, out, time.time() - t
 
-def theorem_names(module):
-    path = os.path.join(LEAN, module.replace(".", "/") + ".lean")
-    if not os.path.exists(path):
-        return []
-    src = open(path).read()
-    ns = re.findall(r"^namespace\s+(\S+)", src, re.M)
-    prefix = ".".join(ns)
-    names = re.findall(r"^theorem\s+([A-Za-z0-9_'.]+)", src, re.M)
-    return [(prefix + "." + n) if prefix else n for n in names]
-
 FORBIDDEN = re.compile(r"\b(sorry|admit|native_decide|bv_decide|implemented_by)\b|^axiom\s|unsafe\s|maxHeartbeats\s+0", re.M)
 
 def strip_comments(src):
     src = re.sub(r"/-.*?-/", "", src, flags=re.S)
     src = re.sub(r"--.*", "", src)
     return src
+
+def theorem_names(module):
+    path = os.path.join(LEAN, module.replace(".", "/") + ".lean")
+    if not os.path.exists(path):
+        return []
+    src = strip_comments(open(path).read())
+    stack, names = [], []
+    for line in src.splitlines():
+        m = re.match(r"^namespace\s+(\S+)", line)
+        if m:
+            stack.append(m.group(1)); continue
+        m = re.match(r"^end\s+(\S+)", line)
+        if m and stack and stack[-1] == m.group(1):
+            stack.pop(); continue
+        m = re.match(r"^\s*(?:@\[[^\]]*\]\s*)?(?:private\s+|protected\s+)?theorem\s+([A-Za-z0-9_'.]+)", line)
+        if m and "private" not in line.split("theorem")[0]:
+            names.append(".".join(stack + [m.group(1)]))
+    return names
 
 def audit(prop, modules, workdir):
     """#print axioms for every theorem of the modules; forbidden-token grep over the model."""
@@ -125,6 +133,13 @@ def audit(prop, modules, workdir):
                 m = FORBIDDEN.search(src)
                 if m:
                     problems.append("forbidden token %r in %s" % (m.group(0), fn))
+    # theorem modules imported by the property file (LexprModel.Proofs.*) are audited too
+    extra = []
+    for m in modules:
+        path = os.path.join(LEAN, m.replace(".", "/") + ".lean")
+        if os.path.exists(path):
+            extra += re.findall(r"^import\s+(LexprModel\.Proofs\.\S+)", open(path).read(), re.M)
+    modules = modules + [e for e in extra if e not in modules]
     names = []
     for m in modules:
         names += theorem_names(m)
